@@ -301,6 +301,11 @@ def _fam():
           [["nn", "f32"], ["strided", "u64", 2], ["array", "f32", 1, "u32"]]]
     # a 16-bit coordinate scalar (a field of exactly 2^16 cells is legal: the largest index is 2^16 - 1)
     S += [[["strided", "u16", 2], ["array", "f32", 1]]]
+    # configuration blocks whose members are not adjacent in memory (an odd number of narrow coordinates before a wider default
+    # value: padding inside the owning data; the file has none)
+    S += [[["backup"], ["strided", "u16", 3], ["array", "f64", 1]],
+          [["backup"], ["strided", "u16", 1], ["array", "f64", 2]],
+          [["clamp"], ["strided", "u16", 3], ["array", "f32", 1]]]
     return S
 
 
